@@ -62,7 +62,7 @@ BuildEv(s0, in, s1) ==
                   isCtl == b.k \in {"select", "operate", "dop", "dopnr"}
                   hdrs == CASE b.k = "read" /\ b.bad = "" -> [i \in 1..Len(b.hs) |-> HdrRec(b.hs[i])]
                             [] b.k \in {"enable", "disable"} -> ClsHdrs(b.cl)
-                            [] isCtl -> <<[g |-> 12, v |-> 1, q |-> 23, a |-> 1, b |-> -1]>>
+                            [] isCtl -> <<[g |-> 12, v |-> 1, q |-> IF b.ob = "a2" THEN 40 ELSE 23, a |-> 1, b |-> -1]>>
                             [] b.k = "write_rst" -> <<[g |-> 80, v |-> 1, q |-> 0, a |-> 7, b |-> 7]>>
                             [] OTHER -> <<>>
                   robjs == CASE isCtl -> <<CtlObj(b.ob, 0)>>
@@ -74,7 +74,7 @@ BuildEv(s0, in, s1) ==
                   r == rxf(FcOf(b.k), b.seq, FALSE, hdrs, bid)
               IN [r EXCEPT !.src = Fld(in, "src", "M"), !.dst = Fld(in, "dst", "U"),
                            !.wf = b.bad # "badobj", !.robjs = robjs,
-                           !.obid = IF isCtl THEN 2000 + CtlIx(b.ob) ELSE bid]
+                           !.obid = IF isCtl THEN 2000 + CtlIx(b.ob) + (IF b.ob = "a2" THEN 10 ELSE 0) ELSE bid]
                  @@ [base EXCEPT !.cls = IF b.bad # "" THEN b.bad ELSE "ok"]
          [] in.k = "conf" -> [rxf(0, in.seq, in.uns, <<>>, 999) EXCEPT !.src = Fld(in, "src", "M")] @@ base
          [] OTHER -> base
